@@ -1029,8 +1029,9 @@ class ComputeGraph(MultiDiGraph):
             lambda e: isinstance(e, Derivative) and e.expr.func.__name__ == 'sigmoid',
             lambda e: (lambda s: s * (1 - s))(Function('sigmoid')(e.expr.args[0]))
         )
+        # the backend renames `absv` to its call name (`abs`) before the symbolic expression is rebuilt
         expr = expr.replace(
-            lambda e: isinstance(e, Derivative) and e.expr.func.__name__ == 'absv',
+            lambda e: isinstance(e, Derivative) and e.expr.func.__name__ in ('absv', 'abs'),
             lambda e: Function('sign')(e.expr.args[0])
         )
         # Sympy wraps chain-rule applications of identity/sigmoid/absv in
